@@ -382,6 +382,29 @@ func DependsOn(v ssa.Value, src func(ssa.Value) bool) bool {
 				}
 			}
 			return false
+		case *ssa.Alloc, *ssa.MakeSlice:
+			// values stored into the object (directly or through an element /
+			// field address)
+			if refs := v.Referrers(); refs != nil {
+				for _, r := range *refs {
+					switch y := r.(type) {
+					case *ssa.Store:
+						if y.Addr == v && rec(y.Val) {
+							return true
+						}
+					case *ssa.IndexAddr, *ssa.FieldAddr:
+						yv := y.(ssa.Value)
+						if rr := yv.Referrers(); rr != nil {
+							for _, r2 := range *rr {
+								if st, ok := r2.(*ssa.Store); ok && st.Addr == yv && rec(st.Val) {
+									return true
+								}
+							}
+						}
+					}
+				}
+			}
+			return false
 		case ssa.Instruction:
 			for _, op := range x.Operands(nil) {
 				if *op != nil && rec(*op) {
